@@ -10,8 +10,10 @@ mkdir -p "$B"
 [ -n "$VERIF_ICINGA_PREBUILT" ] && exit 0
 exec 9>"$B/.lock"
 flock 9
+LAUNCH=""
+[ -n "$VERIF_CCACHE" ] && command -v ccache >/dev/null && LAUNCH="-DCMAKE_CXX_COMPILER_LAUNCHER=ccache -DCMAKE_C_COMPILER_LAUNCHER=ccache"
 if [ ! -f "$B/build.ninja" ]; then
-  cmake -G Ninja -S "$REPO" -B "$B" \
+  cmake -G Ninja $LAUNCH -S "$REPO" -B "$B" \
     -DCMAKE_BUILD_TYPE=RelWithDebInfo \
     -DCMAKE_CXX_FLAGS_RELWITHDEBINFO="-O1" -DCMAKE_C_FLAGS_RELWITHDEBINFO="-O1" \
     -DCMAKE_CXX_FLAGS="-Wno-error -w -DICINGA2_VERIF" -DCMAKE_C_FLAGS="-w -DICINGA2_VERIF" \
